@@ -89,6 +89,21 @@ class Ctx:
     def check_eq(self, rule, construct, derived, expected, detail=""):
         return self.ob(rule, construct, derived, expected, str(derived) == str(expected), detail)
 
+    def check_expr(self, rule, construct, derived_expr, accepted, detail=""):
+        """Compare an expression with accepted spellings (see exprdiff policy)."""
+        from .exprdiff import compare
+        from .symex import u
+
+        if isinstance(accepted, str):
+            accepted = [accepted]
+        ok, why = compare(derived_expr, accepted)
+        exp = " | ".join(accepted)
+        if ok is True:
+            return self.ob(rule, construct, u(derived_expr), exp, True, detail)
+        if ok is False:
+            return self.ob(rule, construct, u(derived_expr), exp, False, (detail + " -- " if detail else "") + why)
+        return self.ob(rule, construct, u(derived_expr), exp, None, why)
+
     def count(self, what: str, n: int = 1, minimum: Optional[int] = None):
         self.counts[what] = self.counts.get(what, 0) + n
         if minimum is not None:
